@@ -41,6 +41,9 @@ def oracle_moments(prog, params, inits, goals, N, max_states=20000, engine_out=N
     try:
         eng = Engine(prog, params, inits, max_states=max_states)
         dists = eng.run(N)
+        bad = declared_types_violated(prog, eng, dists)
+        if bad:
+            raise OracleSkip(f"declared-type-false:{bad}")
         table = []
         for g in goals:
             table.append([eng.moment(d, g) for d in dists])
@@ -71,3 +74,27 @@ def has_draw_or_choice(prog: Program):
 def harness_seed(seed, prop, i):
     from ..harness import case_seed
     return case_seed(seed, prop, i)
+
+
+def declared_types_violated(prog, eng, dists):
+    """user-declared types are taken as given by the properties: a program whose declared type is false at a
+    reachable boundary state is outside their scope.  Returns the offending (var, value) or None."""
+    from ..lang.ast import fold
+    from ..ref.engine import AP
+    for v, tname, args in prog.typedefs:
+        if v not in eng.index:
+            continue
+        vals = [fold(a) for a in args]
+        if any(a[0] != "num" for a in vals):
+            continue
+        nums = [a[1] for a in vals]
+        if tname == "FiniteRange" and len(nums) == 2:
+            ok = lambda x: (not isinstance(x, AP)) and x.denominator == 1 and nums[0] <= x <= nums[1]
+        else:
+            ok = lambda x: (not isinstance(x, AP)) and x in nums
+        i = eng.index[v]
+        for d in dists:
+            for st in d:
+                if not ok(st[i]):
+                    return (v, str(st[i]))
+    return None
